@@ -380,6 +380,11 @@ def run(chk, prog):
         chk.check(not (set(ins) & set(outs)), "R10", A.loc(mainf_, x), "%s is built with different source and destination grids (in %s, out %s)"
                   % (args[2].replace("vfps::", ""), sorted(set(ins)), sorted(set(outs))), "main:in-place:%s:%s" % (args[2].replace("vfps::", ""), sorted(set(ins) & set(outs))))
     chk.floor("R10-map-constructions", n10, 6)
+    # ---- R11: the work grids are copies of the first one, axes included -------------------------------------------------------------------------------------
+    # the damping/diffusion step reads zero bin and coordinates from its source grid, a copy of grid_t1: the tolerated defect sits "next to zero
+    # energy" only if the copy carries the same axes (copy constructor: decided under C09 R4; re-evaluated here)
+    from .common import reeval
+    reeval(chk, prog, "C09", lambda i: i["rule"] == "R4" and i["what"].startswith("copy:"), "R11", "R11-copies-carry-the-axes", 3)
     chk.notes.append("C01: column sums of every transport operator (kick maps via weights+index maps, Fokker-Planck stencils incl. "
                      "stencil-switch rows, identity) decided as polynomial identities / index equalities for all offsets, sizes, "
                      "orders, FPTypes. Not decided: float rounding, the grid border, OpenCL kernels.")
